@@ -183,7 +183,17 @@ def classify(probs, text, res, by, root):
     export wrote the file: an unused import is in the known class only if it names the default of a type parameter of a generic
     definition reachable from that root (an inlined / flattened generic drags its defaults along)"""
     import re
-    from props.c01 import reach
+    from props.c01 import reach as reach_t
+
+    def reach(by_, root_):
+        """the definitions reachable from the root of the export and from the definitions the file itself declares (a file above
+        the export root is shared by every root of the run)"""
+        out = {d["ident"]: d for d in reach_t(by_, root_)}
+        for d in res["defs"]:
+            if re.search(r"export type %s\b" % re.escape(d.get("rename") or d["ident"]), text):
+                for x in reach_t(by_, ("named", d["ident"], [])):
+                    out[x["ident"]] = x
+        return list(out.values())
     if probs and all("is imported but not used" in p for p in probs):
         unused = {m.group(1) for p in probs for m in [re.match(r"type (\S+) is imported but not used", p)] if m}
         defaults = set()
@@ -204,4 +214,20 @@ def classify(probs, text, res, by, root):
                         bare.add((by[ident].get("rename") or ident) if ident in by else ident)
         if unused and unused <= bare:
             return "as_on_bare_variant"
+        # the element type of a zero-length array (`[Foo; 0]` is `[]`; C12 wants the element visited all the same)
+        zero = set()
+
+        def zero_in(ty):
+            if isinstance(ty, (list, tuple)):
+                if len(ty) == 3 and ty[0] == "array" and ty[1] == 0:
+                    # the element type is visited, or (under `inline`) what the element type depends on
+                    for x in reach_t(by, ty[2]):
+                        zero.add(x.get("rename") or x["ident"])
+                for x in ty:
+                    zero_in(x)
+        for d in reach(by, root):
+            for f in (d["fields"] if d["kind"] == "struct" else [f for v in d["variants"] for f in v["fields"]]):
+                zero_in(f.get("as_") or f["ty"])
+        if unused and unused <= zero:
+            return "zero_length_array_element"
     return None
